@@ -33,6 +33,9 @@ Definition i64_be (z : Z) : list N := be8 (Z.to_N (z mod 18446744073709551616)%Z
 Definition bytes_of_string (s : string) : list N :=
   map (fun c => N_of_ascii c) (list_ascii_of_string s).
 
+(* byte strings of the case terms are written as (length, big-endian number): [bs k 0x…] *)
+Definition bs (k : nat) (n : N) : list N := be_bytes k n.
+
 (* u64 Display (decimal, no leading zeros) *)
 Fixpoint dec_go (fuel : nat) (n : N) (acc : list N) : list N :=
   match fuel with
@@ -124,6 +127,12 @@ Definition feed_hash (t : setype) : list N :=
   | CBTx e b o => be2 ENTITY_TYPE_CARDANO_BLOCKS_TRANSACTIONS ++ be8 e ++ be8 b ++ be8 o
   end.
 
+(* ---------- aggregate verification key (Concatenation) ---------- *)
+(* the key is {mt_commitment: {root, nr_leaves}, total_stake}; its json-hex text is an atom of the
+   three components (codec injectivity idealised, as for every key) *)
+Definition avk_of (root : list N) (nr_leaves total_stake : N) : bt :=
+  BHash ENC [BLit root; BLit [nr_leaves]; BLit [total_stake]].
+
 (* ---------- signatures ---------- *)
 (* ideal STM multi-signature: a byte identity plus, when it is a genuine aggregate, what it is valid
    for: (aggregate key, (k, m, phi_fixed), message).  The STM verifier itself is property C01. *)
@@ -161,9 +170,15 @@ Definition cert_hash (c : cert) : result bt :=
 
 (* ---------- certificate <-> message ---------- *)
 (* multi_signature / genesis_signature strings: None = "" ; Some s = the (non-empty) codec text of s *)
+(* text form of a key / signature string in the message: every ProtocolKey decodes from both forms
+   (ProtocolKeyCodec::decode_key: json-hex first then bytes-hex, or the reverse for the bytes_hex_codec
+   types); the conversion from a certificate always writes the canonical one (json-hex for the AVK and
+   the multi-signature, bytes-hex for the genesis signature) *)
+Inductive kenc := JsonHex | BytesHex.
 Record cmsg := {
   m_hash : bt; m_prev : bt; m_epoch : N; m_set : setype; m_meta : metadata; m_pm : pmsg;
-  m_signed : bt; m_avk : bt; m_multi : option msig; m_genesis : option sg }.
+  m_signed : bt; m_avk : bt; m_multi : option msig; m_genesis : option sg;
+  m_avk_enc : kenc; m_sig_enc : kenc }.
 
 Definition signed_entity_type (c : cert) : setype :=
   match sig c with GenesisSig _ => MSD (epoch c) | MultiSig t _ => t end.
@@ -172,7 +187,15 @@ Definition msg_of_cert (c : cert) : cmsg :=
   {| m_hash := hash c; m_prev := prev c; m_epoch := epoch c; m_set := signed_entity_type c;
      m_meta := meta c; m_pm := pm c; m_signed := signed c; m_avk := avk c;
      m_multi := match sig c with MultiSig _ s => Some s | _ => None end;
-     m_genesis := match sig c with GenesisSig s => Some s | _ => None end |}.
+     m_genesis := match sig c with GenesisSig s => Some s | _ => None end;
+     m_avk_enc := JsonHex;
+     m_sig_enc := match sig c with GenesisSig _ => BytesHex | MultiSig _ _ => JsonHex end |}.
+
+(* the same message with its key / signature strings written in the other accepted text form *)
+Definition reencode (m : cmsg) (ea es : kenc) : cmsg :=
+  {| m_hash := m_hash m; m_prev := m_prev m; m_epoch := m_epoch m; m_set := m_set m; m_meta := m_meta m;
+     m_pm := m_pm m; m_signed := m_signed m; m_avk := m_avk m; m_multi := m_multi m;
+     m_genesis := m_genesis m; m_avk_enc := ea; m_sig_enc := es |}.
 
 Definition cert_of_msg (m : cmsg) : option cert :=
   let mk s := {| hash := m_hash m; prev := m_prev m; epoch := m_epoch m; meta := m_meta m;
@@ -239,12 +262,29 @@ Definition run_fixed (ps : list (Z * Z)) : obs :=
 
 (* round trip certificate -> message -> certificate: succeeded?, and the equality pattern of
    [hash field; recomputed hash; hash field after; recomputed hash after; signed; signed after] *)
-Definition run_roundtrip (c : cert) : obs :=
-  match cert_of_msg (msg_of_cert c) with
+(* what the round-tripped certificate holds, value by value (everything that is not an opaque atom) *)
+Definition set_obs (t : setype) : obs :=
+  match t with
+  | MSD e => OLN [0; e] | CSD e => OLN [1; e] | CDb e i => OLN [2; e; i]
+  | CTx e b => OLN [3; e; b] | CBTx e b o => OLN [4; e; b; o]
+  end.
+Definition value_obs (c : cert) : obs :=
+  let md := meta c in
+  OL [OB (match sig c with GenesisSig _ => true | MultiSig _ _ => false end);
+      set_obs (signed_entity_type c); ON (epoch c);
+      OLN (network md); OLN (version md);
+      ON (pp_k (params md)); ON (pp_m (params md)); ORes (rmap ON (phi_fixed (pp_phi (params md))));
+      OZ (ts_nanos (initiated md)); OZ (ts_nanos (sealed md));
+      OL (map (fun p => OL [OLN (pid p); ON (stake p)]) (signers md))].
+Definition run_roundtrip_enc (c : cert) (ea es : kenc) : obs :=
+  match cert_of_msg (reencode (msg_of_cert c) ea es) with
   | None => OL [OB false]
   | Some c' => OL [OB true; hash_obs [Ok (hash c); cert_hash c; Ok (hash c'); cert_hash c'];
-                   OLN (eq_pattern [signed c; signed c'])]
+                   OL [OLN (eq_pattern [signed c; signed c']); OLN (eq_pattern [prev c; prev c']);
+                       OLN (eq_pattern [pm_hash (pm c); pm_hash (pm c')]); OLN (eq_pattern [BHex (avk c); BHex (avk c')])];
+                   value_obs c']
   end.
+Definition run_roundtrip (c : cert) : obs := run_roundtrip_enc c JsonHex JsonHex.
 
 (* ---------- compact constructors for the case terms printed by the harness ---------- *)
 Definition pmsg_of (l : list (nat * bt)) : pmsg := map (fun kv => (pmk (fst kv), snd kv)) l.
